@@ -32,6 +32,12 @@ def _pair_cases(rng, tier):
 def _guided_cases(rng, tier):
     n = 50 if tier == "quick" else 1200
     out = [dict(seed=2000 + i, n=60, profile=p) for i, p in enumerate(mc.PROFILES)]
+    # scripted: close() around connection establishment, and a hostile third participant (all end with the owed
+    # answers delivered, so the full oracle applies)
+    for c in mc.connection_corpus() + mc.hostile_corpus():
+        c = dict(c)
+        c["finished"] = True
+        out.append(c)
     for _ in range(n):
         out.append(dict(seed=rng.randrange(10**9), n=rng.choice([10, 25, 50, 90, 150]), profile=rng.choice(mc.PROFILES)))
     return out
